@@ -21,10 +21,6 @@ func SendAccountDebitRequest(
 	ue *chf_context.ChfUe,
 	ccr *charging_datatype.AccountDebitRequest,
 ) (*charging_datatype.AccountDebitResponse, error) {
-	// the answer to this request arrives on a channel of its own: an answer nobody waits for any more
-	// is dropped instead of reaching a later request or blocking the handler
-	answer := make(chan *diam.Message, 1)
-	ue.AbmfMux.Handle("CCA", HandleCCA(answer))
 	abmfDiameter := factory.ChfConfig.Configuration.AbmfDiameter
 	addr := abmfDiameter.HostIPv4 + ":" + strconv.Itoa(abmfDiameter.Port)
 	conn, err := ue.AbmfClient.DialNetworkTLS(abmfDiameter.Protocol, addr, abmfDiameter.Tls.Pem, abmfDiameter.Tls.Key)
@@ -33,6 +29,11 @@ func SendAccountDebitRequest(
 	}
 	// the connection serves this request only
 	defer conn.Close()
+	// the answer to this request arrives on a channel of its own and is taken from this connection only: an
+	// answer nobody waits for any more - still being delivered by the connection of an earlier request - is
+	// dropped instead of reaching a later request or blocking the handler
+	answer := make(chan *diam.Message, 1)
+	ue.AbmfMux.Handle("CCA", HandleCCA(answer, conn))
 
 	meta, ok := smpeer.FromContext(conn.Context())
 	if !ok {
@@ -68,8 +69,12 @@ func SendAccountDebitRequest(
 	}
 }
 
-func HandleCCA(abmfChan chan *diam.Message) diam.HandlerFunc {
+func HandleCCA(abmfChan chan *diam.Message, from diam.Conn) diam.HandlerFunc {
 	return func(c diam.Conn, m *diam.Message) {
+		if c != from {
+			// read by the connection of another (earlier) request of this subscriber
+			return
+		}
 		logger.AcctLog.Tracef("Received CCA from %s", c.RemoteAddr())
 
 		select {
